@@ -70,3 +70,143 @@ Example in_place_refuted :
   let s' := updates false [1; 2]%N s [(1, 11); (2, 22)]%N in
   content_of s' 1%N = Some 22%N /\ content_of s' 2%N = Some 22%N.
 Proof. vm_compute. split; reflexivity. Qed.
+
+(* ---------- relink_hard_link_groups ---------- *)
+Lemma link_to_store s q i : d_store (link_to s q i) = d_store s.
+Proof. reflexivity. Qed.
+
+Lemma relink_group_store : forall names s kept, d_store (relink_group s kept names) = d_store s.
+Proof.
+  induction names as [|q rest IH]; intros s kept; cbn [relink_group]; [reflexivity|].
+  destruct (d_names s q) as [j|]; [|apply IH].
+  destruct (find _ kept) as [i|]; [rewrite IH; reflexivity | apply IH].
+Qed.
+
+(* the invariant of one group's pass: every kept inode is the inode of ... and kept inodes hold pairwise different contents *)
+Definition kept_ok (s : dstate) (kept : list N) : Prop :=
+  forall i i', In i kept -> In i' kept -> d_store s i = d_store s i' -> i = i'.
+
+Lemma find_content_some s kept j i :
+  find (fun i => N.eqb (d_store s i) (d_store s j)) kept = Some i -> In i kept /\ d_store s i = d_store s j.
+Proof. intros H. apply find_some in H. destruct H as [A B]. apply N.eqb_eq in B. split; assumption. Qed.
+
+Lemma find_content_none s kept j :
+  find (fun i => N.eqb (d_store s i) (d_store s j)) kept = None -> forall i, In i kept -> d_store s i <> d_store s j.
+Proof. intros H i Hi E. apply (find_none _ _ H) in Hi. apply N.eqb_neq in Hi. contradiction. Qed.
+
+(* no name changes content; names outside the group keep their inode *)
+Theorem relink_group_contents : forall names s kept p, content_of (relink_group s kept names) p = content_of s p.
+Proof.
+  induction names as [|q rest IH]; intros s kept p; cbn [relink_group]; [reflexivity|].
+  destruct (d_names s q) as [j|] eqn:Eq; [|apply IH].
+  destruct (find _ kept) as [i|] eqn:Ef; [|apply IH].
+  rewrite IH. apply find_content_some in Ef. destruct Ef as [_ Ec].
+  unfold content_of, link_to. cbn [d_names d_store]. destruct (N.eqb_spec p q) as [->|]; [|reflexivity].
+  rewrite Eq. cbn [option_map]. congruence.
+Qed.
+
+Theorem relink_group_outside : forall names s kept p, ~ In p names -> d_names (relink_group s kept names) p = d_names s p.
+Proof.
+  induction names as [|q rest IH]; intros s kept p Hp; cbn [relink_group]; [reflexivity|].
+  assert (Hpq : p <> q) by (intros ->; apply Hp; left; reflexivity).
+  assert (Hpr : ~ In p rest) by (intros H; apply Hp; right; exact H).
+  destruct (d_names s q) as [j|] eqn:Eq; [|apply IH; exact Hpr].
+  destruct (find _ kept) as [i|] eqn:Ef; [|apply IH; exact Hpr].
+  rewrite IH by exact Hpr. unfold link_to. cbn [d_names]. destruct (N.eqb_spec p q); [contradiction | reflexivity].
+Qed.
+
+(* the post-condition of one group's pass, by induction with the set of names already visited:
+   [done] names are present-and-visited; each of them sits on a kept inode; kept inodes hold pairwise different contents *)
+Lemma relink_group_joins : forall names s kept (done : list N),
+  NoDup names -> (forall p, In p done -> ~ In p names) ->
+  kept_ok s kept ->
+  (forall p i, In p done -> d_names s p = Some i -> In i kept) ->
+  let s' := relink_group s kept names in
+  forall p q i j, In p (done ++ names) -> In q (done ++ names) ->
+    d_names s' p = Some i -> d_names s' q = Some j -> d_store s' i = d_store s' j -> i = j.
+Proof.
+  induction names as [|r rest IH]; intros s kept done Hnd Hdis Hk Hdone; cbn [relink_group].
+  - intros p q i j Hp Hq Ei Ej Ec. rewrite app_nil_r in *. eapply Hk; eauto.
+  - inversion Hnd as [|? ? Hr Hnd']; subst.
+    assert (Hdis' : forall p, In p (r :: done) -> ~ In p rest).
+    { intros p [<-|Hp]; [exact Hr|]. intros H. apply (Hdis p Hp). right; exact H. }
+    assert (Happ : forall p, In p (done ++ r :: rest) <-> In p ((r :: done) ++ rest)).
+    { intros p. rewrite !in_app_iff. cbn [In]. tauto. }
+    destruct (d_names s r) as [jr|] eqn:Er.
+    + destruct (find _ kept) as [ir|] eqn:Ef.
+      * (* r is pointed at the kept inode ir *)
+        apply find_content_some in Ef. destruct Ef as [Hin Ec0].
+        intros p q i j Hp Hq. apply Happ in Hp. apply Happ in Hq. revert p q i j Hp Hq.
+        apply (IH (link_to s r ir) kept (r :: done) Hnd' Hdis').
+        -- exact Hk.
+        -- intros p i [<-|Hp] Ei.
+           ++ unfold link_to in Ei. cbn [d_names] in Ei. rewrite N.eqb_refl in Ei. inversion Ei; subst. exact Hin.
+           ++ unfold link_to in Ei. cbn [d_names] in Ei. destruct (N.eqb_spec p r) as [->|].
+              ** inversion Ei; subst. exact Hin.
+              ** eapply Hdone; eauto.
+      * (* r becomes a representative *)
+        pose proof (find_content_none s kept jr Ef) as Hnone.
+        intros p q i j Hp Hq. apply Happ in Hp. apply Happ in Hq. revert p q i j Hp Hq.
+        apply (IH s (jr :: kept) (r :: done) Hnd' Hdis').
+        -- intros i i' [<-|Hi] [<-|Hi'] Ec; try reflexivity.
+           ++ exfalso. apply (Hnone i' Hi'). symmetry; exact Ec.
+           ++ exfalso. apply (Hnone i Hi). exact Ec.
+           ++ apply Hk; assumption.
+        -- intros p i [<-|Hp] Ei.
+           ++ rewrite Er in Ei. inversion Ei; subst. left; reflexivity.
+           ++ right. eapply Hdone; eauto.
+    + (* r has no file in the destination: it is simply absent afterwards too *)
+      intros p q i j Hp Hq Ei Ej Ec.
+      assert (Habs : d_names (relink_group s kept rest) r = None) by (rewrite relink_group_outside by exact Hr; exact Er).
+      assert (Hp' : In p (done ++ rest)).
+      { apply in_app_iff in Hp. apply in_app_iff. destruct Hp as [Hp|[<-|Hp]]; [left; exact Hp | congruence | right; exact Hp]. }
+      assert (Hq' : In q (done ++ rest)).
+      { apply in_app_iff in Hq. apply in_app_iff. destruct Hq as [Hq|[<-|Hq]]; [left; exact Hq | congruence | right; exact Hq]. }
+      assert (Hdis2 : forall p0, In p0 done -> ~ In p0 rest) by (intros p0 Hp0 H; apply (Hdis p0 Hp0); right; exact H).
+      exact (IH s kept done Hnd' Hdis2 Hk Hdone p q i j Hp' Hq' Ei Ej Ec).
+Qed.
+
+(* After the pass over one group: two names of the group that hold the same file share an inode. *)
+Theorem relink_group_correct names s :
+  NoDup names ->
+  let s' := relink_group s [] names in
+  (forall p q i j, In p names -> In q names -> d_names s' p = Some i -> d_names s' q = Some j ->
+                   content_of s' p = content_of s' q -> i = j)
+  /\ (forall p, content_of s' p = content_of s p)
+  /\ (forall p, ~ In p names -> d_names s' p = d_names s p).
+Proof.
+  intros Hnd. split; [|split].
+  - intros p q i j Hp Hq Ei Ej Ec.
+    assert (H1 : forall p0, In p0 (@nil N) -> ~ In p0 names) by (intros ? []).
+    assert (H2 : kept_ok s []) by (intros ? ? []).
+    assert (H3 : forall p0 i0, In p0 (@nil N) -> d_names s p0 = Some i0 -> In i0 (@nil N)) by (intros ? ? []).
+    assert (H4 : d_store (relink_group s [] names) i = d_store (relink_group s [] names) j).
+    { unfold content_of in Ec. rewrite Ei, Ej in Ec. cbn [option_map] in Ec. inversion Ec. reflexivity. }
+    exact (relink_group_joins names s [] [] Hnd H1 H2 H3 p q i j Hp Hq Ei Ej H4).
+  - intros p. apply relink_group_contents.
+  - intros p Hp. apply relink_group_outside. exact Hp.
+Qed.
+
+(* a name of the group is only ever pointed at an inode that a name of the SAME group had: the pass never links two groups *)
+Theorem relink_group_stays_inside : forall names s kept q i,
+  d_names (relink_group s kept names) q = Some i ->
+  d_names s q = Some i \/ In i kept \/ exists r, In r names /\ d_names s r = Some i.
+Proof.
+  induction names as [|r rest IH]; intros s kept q i H; cbn [relink_group] in H; [left; exact H|].
+  destruct (d_names s r) as [jr|] eqn:Er.
+  - destruct (find _ kept) as [ir|] eqn:Ef.
+    + apply find_content_some in Ef. destruct Ef as [Hin _].
+      apply IH in H. destruct H as [H|[H|(r' & Hr' & H)]].
+      * unfold link_to in H. cbn [d_names] in H. destruct (N.eqb_spec q r) as [->|]; [inversion H; subst; right; left; exact Hin | left; exact H].
+      * right; left; exact H.
+      * unfold link_to in H. cbn [d_names] in H. destruct (N.eqb_spec r' r) as [->|].
+        -- inversion H; subst. right; left; exact Hin.
+        -- right; right. exists r'. split; [right; exact Hr' | exact H].
+    + apply IH in H. destruct H as [H|[[<-|H]|(r' & Hr' & H)]].
+      * left; exact H.
+      * right; right. exists r. split; [left; reflexivity | exact Er].
+      * right; left; exact H.
+      * right; right. exists r'. split; [right; exact Hr' | exact H].
+  - apply IH in H. destruct H as [H|[H|(r' & Hr' & H)]]; [left; exact H | right; left; exact H |].
+    right; right. exists r'. split; [right; exact Hr' | exact H].
+Qed.
